@@ -190,11 +190,11 @@ func c14StalledReader(run *evid.Run, i int, j *Journal) {
 	j.Log(map[string]any{"scenario": label})
 	A := w.NewLog(0)
 	lo := w.LogOpts(w.LogID)
-	if i%2 == 0 {
+	if (i/len(c14Kinds))%2 == 0 {
 		lo.AccessController = &inspectACL{}
 	}
 	B, _ := ipfslog.NewLog(w.Store.API(), w.Idents[1], lo)
-	p := newPlan(uint64(run.Seed)+uint64(i), i%3 == 0, map[*ipfslog.IPFSLog]string{A: "A", B: "B"})
+	p := newPlan(uint64(run.Seed)+uint64(i), (i/len(c14Kinds))%3 == 0, map[*ipfslog.IPFSLog]string{A: "A", B: "B"})
 	activePlan.Store(p)
 	defer activePlan.Store(nil)
 	// set-up is guarded too: with an inspecting controller a sequential merge can already block
@@ -626,7 +626,7 @@ func c14AfterRefusals(run *evid.Run, i int, j *Journal) {
 	target := []int{1, 5, 15, 16, 17, 31, 33, 60}[rng.Intn(8)]
 	label := fmt.Sprintf("#%d after-refusals: destination refuses merges with %d mis-signed entries in total, then merges a live source", i, target)
 	j.Log(map[string]any{"scenario": label})
-	p := newPlan(uint64(run.Seed)+uint64(i), i%2 == 0, map[*ipfslog.IPFSLog]string{A: "A", D: "D"})
+	p := newPlan(uint64(run.Seed)+uint64(i), (i/len(c14Kinds))%2 == 0, map[*ipfslog.IPFSLog]string{A: "A", D: "D"})
 	activePlan.Store(p)
 	defer activePlan.Store(nil)
 	refused, accepted := 0, 0
